@@ -1,7 +1,7 @@
 /-
 A concrete starting state used by the non-vacuity examples of `LA/Props/C04.lean`.
 -/
-import LA.Lemmas.XtrConfine
+import LA.Lemmas.XtrEnv
 set_option linter.unusedSimpArgs false
 namespace LA.Xtr
 open LA.FS LA.PathClean
